@@ -37,9 +37,12 @@ vars == <<subs, key, kind, done, calls>>
 ShortPrefixes == Strings(1)
 Init ==
   /\ key \in Strings(MaxKeyLen)
-  /\ kind \in Kinds
+  /\ kind \in (IF Family = "two" THEN {"LocalSetNew", "ReplNewerSet"} ELSE Kinds)
   /\ IF Family = "pairs"
      THEN subs \in {<<[prefix |-> p, fate |-> f]>> : p \in Strings(MaxPrefixLen), f \in Fates}
+     ELSE IF Family = "two"   \* two live subscriptions, one of them possibly longer than the key
+     THEN subs \in {<<[prefix |-> p1, fate |-> "held"], [prefix |-> p2, fate |-> "held"]>> :
+                      p1 \in Strings(MaxPrefixLen), p2 \in Strings(2)}
      ELSE subs \in {<<[prefix |-> p1, fate |-> f1], [prefix |-> p2, fate |-> f2], [prefix |-> p3, fate |-> f3]>> :
                       p1 \in ShortPrefixes, p2 \in ShortPrefixes, p3 \in Strings(MaxPrefixLen),
                       f1 \in Fates, f2 \in Fates, f3 \in {"held", "dropped"}}
